@@ -192,17 +192,18 @@ def _run(ctx, work):
     L.append('Definition asm_displacements : list (string * list Z) := [%s].' % '; '.join('(%s, [%s])' % (coq_str(k), '; '.join(map(str, v))) for k, v in sorted(asm.items())))
     L.append('Definition asm_offsetof : list Z := [%s].   (* proc, Ns2, coefsC *)' % '; '.join(map(str, asm_off or [])))
     facts = '\n'.join(L) + '\n'
-    baseline = open(FACTS).read() if os.path.exists(FACTS) else ''
-    changed = facts != baseline
-    try:
-        if changed:
-            with vlib.Lock('coq'): open(FACTS, 'w').write(facts)
-        ctx.prove()
-    finally:
-        if changed and baseline:
-            keep = ctx.replay_path('facts').replace('.json', '.v'); open(keep, 'w').write(facts)
-            with vlib.Lock('coq'): open(FACTS, 'w').write(baseline)
-            ctx.notes.append('facts differ from the committed baseline; this run\'s facts kept at ' + keep)
+    # the facts file is regenerated on every run (untracked; a committed baseline copy only serves setup)
+    old = open(FACTS).read() if os.path.exists(FACTS) else ''
+    changed = facts != old
+    if changed:
+        with vlib.Lock('coq'): open(FACTS, 'w').write(facts)
+    ctx.prove()
+    base = FACTS.replace('.v', '.baseline')
+    differs = (not os.path.exists(base)) or open(base).read() != facts
+    if differs:
+        keep = ctx.replay_path('facts').replace('.json', '.v'); open(keep, 'w').write(facts)
+        ctx.notes.append('facts differ from the committed baseline copy; this run\'s facts kept at ' + keep)
+    changed = differs
     ctx.cov['exhaustive'] = True
     ctx.cov['public_headers'] = hdrs; ctx.cov['structures'] = structs; ctx.cov['api_functions'] = len(api); ctx.cov['libraries'] = sorted(libs)
     ctx.cov['facts_file_changed_vs_committed'] = changed
